@@ -102,7 +102,7 @@ def check_neighbour_dot(run, pkg, fname):
            witness=None if ok else "count column / padding used as neighbour, or another particle's row", loc=loc_of(it, mev))
     if fname == "local_vector_alignment":
         st = [e for e in stores(it) if e.loops == mev.loops]
-        okm = len(st) == 1 and st[0].data["target"][2] == i and st[0].data["value"] in (("call", ".mean", (med,), ()), ("call", "numpy.mean", (med,), ()))
+        okm = tri(True if len(st) == 1 else None, eqv(st[0].data["target"][2], i), eqv(st[0].data["value"], ("call", ".mean", (med,), ()), ("call", "numpy.mean", (med,), ()))) if st else None
         run.ob("R-ALG", fq, "alignment", okm, "result[i] = mean over the neighbours of e_i . e_j", key_of(st[0])[:80] if st else "?", witness=None if okm else "sum instead of mean / stored at another index", loc=fi.loc())
         okr = len(it.returns) == 1 and st and it.returns[0].data["value"] == st[0].data["target"][1]
         run.ob("R-ALG", fq, "return", bool(okr), "the per-particle array is returned", "", witness=None if okr else "another array returned", loc=fi.loc())
@@ -112,9 +112,12 @@ def check_neighbour_dot(run, pkg, fname):
         if ret[0] == "bin" and ret[1] == "/":
             num, den = ret[2], ret[3]
 
-            def acc(t, want):
-                return t[0] == "bin" and t[1] == "+" and t[2][0] == "mu" and t[2][3] in (C(0), C(0.0)) and t[3] == want
-            ok2 = acc(num, ("call", ".sum", (med,), ())) and acc(den, ("call", ".sum", (("call", "numpy.abs", (med,), ()),), ()))
+            def acc(t, *wants):
+                sa = split_acc(t)
+                if sa is None or sa[0][3] not in (C(0), C(0.0)):
+                    return None
+                return eqv(sa[1], *wants)
+            ok2 = tri(acc(num, ("call", ".sum", (med,), ())), acc(den, ("call", ".sum", (("call", "numpy.abs", (med,), ()),), ()), ("call", ".sum", (("call", "numpy.absolute", (med,), ()),), ())))
         run.ob("R-ALG", fq, "quotient", ok2, "phase quotient = sum_ij d_ij / sum_ij |d_ij| (both sums from 0 over all particles and neighbours)", show(ret)[:110],
                witness=None if ok2 else "denominator is not the sum of absolute values: result may leave [-1, 1]", loc=fi.loc())
 
@@ -335,7 +338,8 @@ def check_split(run, pkg):
     ret = it.returns[0].data["value"] if len(it.returns) == 1 else None
     for nm, X in (("Sq_T", Tt), ("Sq_L", Lz)):
         ss = [e for e in stores(it) if e.data["target"][0] == "sub" and e.data["target"][2] == C(nm)]
-        ok = len(ss) == 1 and X is not None and ss[0].data["value"] == ("attr", ("call", ".sum", (("bin", "*", X, ("call", "numpy.conj", (X,), ())),), (("axis", C(1)),)), "real")
+        ok = eqv(ss[0].data["value"], ("attr", ("call", ".sum", (("bin", "*", X, ("call", "numpy.conj", (X,), ())),), (("axis", C(1)),)), "real"),
+                 ("call", ".sum", (("bin", "**", ("call", "numpy.abs", (X,), ()), C(2)),), (("axis", C(1)),))) if (len(ss) == 1 and X is not None) else None
         run.ob("R-ALG", fq, nm, ok, f"{nm} = Re sum_c X_c conj(X_c) of the {'transverse' if nm == 'Sq_T' else 'longitudinal'} part", key_of(ss[0])[:90] if ss else "?", witness=None if ok else f"{nm} is not |X|^2", loc=fi.loc())
     if ret is not None and ret[0] == "tuple" and len(ret[1]) == 2:
         full, ave = ret[1]
